@@ -65,6 +65,7 @@ func TestVerifC10(t *testing.T) {
 		{SW: [][]uint16{{9, 3}}, SB: [][]uint16{{16000, 65535}, {0}}},
 	}
 	vfOrderSweep(e)
+	e.EdgeSlots()
 	e.SlotSweep(sweeps, vfutil.Scale(7, 1))
 	e.BraceSweep(vfutil.Scale(6, 8))
 	e.RunGenerated(r, vfutil.Scale(800, 20000), 40, 60)
